@@ -44,7 +44,11 @@ def cfg_text(k, zs, export):
                "TRUE" if export else "FALSE", "ACTION_CONSTRAINT ExportA\n" if export else ""))
 
 
-def script_of(beh):
+def mine(prop, why):
+    return (prop == "C06") == why.startswith("flush_log()")
+
+
+def script_of(beh, flush=False):
     L = [HEAD.rstrip("\n")]
     called = set()
     for h in beh:
@@ -57,7 +61,7 @@ def script_of(beh):
             L.append(f"S 1 {h['arg'][0]}")
         elif h["a"] == "clear":
             L.append("S 1 0")
-    return "\n".join(L) + "\ndrain 8\nend\n"
+    return "\n".join(L) + ("\ndrain 8 flush\nend\n" if flush else "\ndrain 8\nend\n")
 
 
 def compare(k, beh, evs):
@@ -120,6 +124,7 @@ def validate(ck, execs, label):
 
 def run_for(ck):
     quick = ck.tier == "quick"
+    fl = ck.prop == "C06"        # the C06 check ends every run with flush_log() calls of the new threads
     exe = stopmodel.build()
     try:
         k = extract(exe)
@@ -136,9 +141,9 @@ def run_for(ck):
         ck.add_tlc(r, f"NewCtxRA {label}")
         if r.violated:
             beh = r.trace[-1]["hist"]
-            sc = script_of(beh)
+            sc = script_of(beh, fl)
             ck.extra.setdefault("model_counterexamples", []).append({"config": label, "invariant": r.violated})
-            rej = validate(ck, [("cex", sc, stopmodel.run(exe, sc))], label)
+            rej = [x for x in validate(ck, [("cex", sc, stopmodel.run(exe, sc))], label) if mine(ck.prop, x[2])]
             if rej and validate(ck, [("cex", sc, stopmodel.run(exe, sc))], label):
                 key, sc, why, ev = rej[0]
                 ck.violation("newctx:" + "-".join(why.split())[:70],
@@ -159,7 +164,7 @@ def run_for(ck):
             import random
             behs = random.Random(ck.seed).sample(behs, cap)
         with ThreadPoolExecutor(max_workers=max(2, vlib.NCPU // 2)) as ex:
-            res = list(ex.map(lambda b: stopmodel.run(exe, script_of(b)), behs))
+            res = list(ex.map(lambda b: stopmodel.run(exe, script_of(b, fl)), behs))
         execs, ndrift = [], 0
         for i, (b, evs) in enumerate(zip(behs, res)):
             d = compare(k, b, evs)
@@ -167,11 +172,11 @@ def run_for(ck):
                 ndrift += 1
                 if ndrift <= 3:
                     ck.drifted(f"NewCtxRA {label}: {d}")
-            execs.append((f"{label}-{i}", script_of(b), evs))
+            execs.append((f"{label}-{i}", script_of(b, fl), evs))
             ck.case(("newctx", label, i), nontrivial=any(h["a"] == "clear" for h in b))
         rej = validate(ck, execs, label)
         ck.traces_validated += len(execs) - len(rej)
-        for key, sc, why, ev in rej[:3]:
+        for key, sc, why, ev in [x for x in rej if mine(ck.prop, x[2])][:3]:
             if validate(ck, [(key, sc, stopmodel.run(exe, sc))], label):
                 ck.violation("newctx:" + "-".join(why.split())[:70], f"{key}: {why}; rejected event {json.dumps(ev)}",
                              {"script": sc, "harness": "h_stop", "protocol": k, "why": why})
